@@ -4,6 +4,8 @@ import (
 	"fmt"
 	"strings"
 
+	"github.com/relab/gorums/cmd/protoc-gen-gorums/dev"
+
 	"verif/mc"
 	"verif/world"
 )
@@ -16,7 +18,8 @@ import (
 type callSpec struct {
 	kind string
 	nsw  bool
-	node int // for RPC / unicast
+	node int  // for RPC / unicast
+	sub  bool // issued on a second configuration that consists of node 2 only (shares the node with the first)
 }
 
 func (c callSpec) String() string {
@@ -26,6 +29,9 @@ func (c callSpec) String() string {
 	}
 	if c.nsw {
 		s += "+nsw"
+	}
+	if c.sub {
+		s += "/cfg{2}"
 	}
 	return s
 }
@@ -94,9 +100,18 @@ func fifoScenario(p fifoParams) func() {
 			return world.Reply{}
 		}
 		var calls []*world.Call
+		var sub *dev.Configuration
 		for _, cs := range p.seq {
 			c := w.NewCall(cs.kind)
 			c.Node, c.NoSendWaiting = cs.node, cs.nsw
+			if cs.sub {
+				if sub == nil {
+					mc.NoBranch(true)
+					sub = w.SubConfig(2)
+					mc.NoBranch(false)
+				}
+				c.Cfg = sub
+			}
 			calls = append(calls, c)
 		}
 		finished := 0
@@ -294,6 +309,18 @@ func fifoInstances(tier string) []Instance {
 			add(fifoParams{seq: []callSpec{a, b}, buf: 0, window: 3, threads: 2}, 1)
 		}
 	}
+	// calls on two configurations that share node 2: every ordered pair of {call on the full configuration,
+	// call on the configuration {2}} over 4 variants
+	shareKinds := []callSpec{{kind: "QuorumCall"}, {kind: "QuorumCallAsync"}, {kind: "Multicast", nsw: true}, {kind: "CorrectableStream"}}
+	for _, a := range shareKinds {
+		for _, b := range shareKinds {
+			for _, which := range []int{1, 2, 3} {
+				a2, b2 := a, b
+				a2.sub, b2.sub = which&1 != 0, which&2 != 0
+				add(fifoParams{seq: []callSpec{a2, b2}, buf: 1, window: 1, threads: 1}, 1)
+			}
+		}
+	}
 	// handlers that release early and keep working: pairs and triples over a reduced alphabet
 	redE := []callSpec{{kind: "QuorumCallAsync"}, {kind: "Multicast", nsw: true}, {kind: "Unicast", node: 2, nsw: true}, {kind: "QuorumCall"}}
 	for _, a := range redE {
@@ -356,7 +383,7 @@ func fifoInstances(tier string) []Instance {
 
 func init() {
 	register(&Check{ID: "C03",
-		Rule:        "every ordered pair over 11 call variants (RPC, quorum call, per-node, async, correctable, correctable stream, multicast with/without send-waiting, per-node multicast, unicast with/without send-waiting) x send buffer {0,1,2} x transport window {1,3}, issued by one client thread or by two threads ordered by happens-before, plus every triple over 7 representatives a backlog family (three queued one-way messages, then each variant, send buffer {1,2}), and an outage family (every triple over 4 variants issued while node 2 is down, send buffer {0,3}, the node restarted by an adversary thread at any instant, back-off timers fired between quiescent points: per connection the delivered calls start in issue order, none twice); node 2's first handler is slow so stragglers of earlier calls are still queued; all schedules within the deviation bound; oracle: per server the handler start order equals the issue order, no handler twice, every targeted server handles every call; an outcome is (instance, number of handler starts)",
+		Rule:        "every ordered pair over 11 call variants (RPC, quorum call, per-node, async, correctable, correctable stream, multicast with/without send-waiting, per-node multicast, unicast with/without send-waiting) x send buffer {0,1,2} x transport window {1,3}, issued by one client thread or by two threads ordered by happens-before, plus pairs issued on two configurations that share node 2, every triple over 7 representatives a backlog family (three queued one-way messages, then each variant, send buffer {1,2}), and an outage family (every triple over 4 variants issued while node 2 is down, send buffer {0,3}, the node restarted by an adversary thread at any instant, back-off timers fired between quiescent points: per connection the delivered calls start in issue order, none twice); node 2's first handler is slow so stragglers of earlier calls are still queued; all schedules within the deviation bound; oracle: per server the handler start order equals the issue order, no handler twice, every targeted server handles every call; an outcome is (instance, number of handler starts)",
 		Gen:         fifoInstances,
 		Assumptions: []string{"transport is the fakegrpc model (ordered frames per stream, bounded window); quorum size 1 of 2", "interleavings up to the reported deviation bound"},
 	})
